@@ -1,7 +1,7 @@
 SPECIFICATION Spec
 CONSTANT MaxN = 4
-CONSTANT BoxOrder = "faithful"
-CONSTANT Guard = "no_guard"
+CONSTANT BoxOrder = "alloc_before_hook"
+CONSTANT Guard = "correct"
 INVARIANT ExactlyOnce
 INVARIANT OnlyConstructed
 INVARIANT FailedReleasesAll
